@@ -397,6 +397,26 @@ def only_partial_bypass(facts, b, gs, c, some, cmpbb, o, nones=()):
                 # paths avoiding cmpbb must leave through the false edge of this test
                 if not c.some_path(some, [o], avoid=[cmpbb, z] + list(nones)):
                     return True
+    # any other spelling of the Finish test (`matches!(mode, Finish)`, a flag computed earlier): in a concrete walk with the mode's
+    # discriminant set to Finish the Ok is not reached around the comparison
+    adt = facts.adt("decode::lzma::ProcessingMode")
+    margs = [i for i in range(1, b.arg_count + 1) if b.locals[i].name == "mode"]
+    if adt is not None and margs:
+        names = [v["name"].split("::")[-1] for v in adt["variants"]]
+        if "Finish" in names:
+            fi = names.index("Finish")
+            tm = Terms(b)
+
+            def cv(blk):
+                if (flow.declared(blk.term) or "").endswith("PartialEq::eq") and len(blk.term.args) == 2 and \
+                        any(pat.has_arg(tm.of_operand(a_), "mode") for a_ in blk.term.args):
+                    vs = [x for a_ in blk.term.args for x in pat.promoted_variants(facts, tm.of_operand(a_))]
+                    if len(vs) == 1 and vs[0][1] in names:
+                        return int(names.index(vs[0][1]) == fi)
+                return None
+            dv = lambda pl: fi if (pl.local == margs[0] and not [x for x in pl.proj if x[0] != "deref"]) else None
+            if some != o and not pat.walk_concrete(b, c, some, {o}, discr_val=dv, call_val=cv, avoid=[cmpbb] + list(nones)):
+                return True
     return False
 
 
